@@ -176,6 +176,10 @@ func (d *rd) read(n int) bool {
 			return false
 		}
 	}
+	if d.ls.Budget {
+		d.fail("hang", "%s Read(%d): unbounded retry - the wrapper asked the entropy source for more than %d bytes (the whole script needs a few hundred); it returned n=%d err=%v", d.g.name(), n, d.ls.MaxBytes, got, err)
+		return false
+	}
 	produced, merr := d.model.Read(n)
 	c.Event("reads", 1)
 	if merr == nil {
@@ -226,11 +230,17 @@ func (d *rd) read(n int) bool {
 	return false
 }
 
+// entropyBudget bounds what one case may draw from the scripted source: at most 14 Read calls of
+// at most 6 requests each cross the test-level interval 11 times, i.e. at most 13.5 x 64 bytes.
+// A wrapper that keeps reseeding without making progress runs into it instead of hanging.
+const entropyBudget = 1 << 13
+
 func newScripts(c *mon.Case, stream []byte, tail bool) (*mon.Script, *mon.Script) {
 	seed := c.R.Uint64()
 	mk := func() *mon.Script {
 		s := mon.NewScript(append([]byte{}, stream...))
 		s.ProbeSide = false
+		s.MaxBytes = entropyBudget
 		if tail {
 			s.Tail = mon.NewRand(seed, "c17-entropy-tail")
 		}
@@ -250,36 +260,56 @@ func reader(x *mon.Ctx) {
 	per := x.Scale(24, 400)
 	for i := 0; i < per; i++ {
 		for _, g := range cfgs {
-			c := x.Begin("reader cfg=%s #%d (strength, personalisation, entropy stream and 6-14 Read sizes drawn from the case PRNG)", g.name(), i)
+			rp := planReader(x, g, i)
+			c := x.Begin("reader cfg=%s #%d level=%s entry=%d strength=%d pers=%d reads=%d (entropy stream and Read sizes from {0,1,max-1,max,max+1,5max+3,random} drawn from the case PRNG)",
+				g.name(), i, rp.lv.ref.Name, i%2, rp.st, rp.lp, rp.nreads)
 			if c == nil {
 				continue
 			}
-			oneReader(c, g, i)
+			oneReader(c, g, i, rp)
 			c.End()
 		}
 	}
 }
 
-func oneReader(c *mon.Case, g cfg, i int) {
-	r := c.R
-	lv := levelTest
+// readerPlan: the parameters of a reader case that are part of its description (see histPlan).
+type readerPlan struct {
+	lv     level
+	st     int
+	lp     int
+	nreads int
+}
+
+func planReader(x *mon.Ctx, g cfg, i int) readerPlan {
+	r := mon.NewRand(x.Seed, "c17.reader.plan", g.name(), i)
+	rp := readerPlan{lv: levelTest}
 	if r.Intn(16) == 0 {
-		lv = levelTwo
+		rp.lv = levelTwo
 	}
 	// strength: mostly one that instantiates
-	st := strengths[r.Intn(len(strengths))]
+	rp.st = strengths[r.Intn(len(strengths))]
 	if r.Intn(100) < 70 {
-		st = 32
+		rp.st = 32
 		if g.mode == ref.GM && g.block() > 32 {
-			st = g.block()
+			rp.st = g.block()
 		}
 		if g.mode == ref.NIST && r.Bool() {
-			st = []int{14, 16, 24, 48}[r.Intn(4)]
+			rp.st = []int{14, 16, 24, 48}[r.Intn(4)]
 		}
 	}
-	var pers []byte
 	if r.Bool() {
-		pers = r.Bytes([]int{1, 16, 32, 200}[r.Intn(4)])
+		rp.lp = []int{1, 16, 32, 200}[r.Intn(4)]
+	}
+	rp.nreads = r.Range(6, 14)
+	return rp
+}
+
+func oneReader(c *mon.Case, g cfg, i int, rp readerPlan) {
+	r := c.R
+	lv, st := rp.lv, rp.st
+	var pers []byte
+	if rp.lp > 0 {
+		pers = r.Bytes(rp.lp)
 	}
 	d := &rd{c: c, g: g, lv: lv}
 	d.ls, d.ms = newScripts(c, r.Bytes(r.Intn(120)), true)
@@ -289,8 +319,7 @@ func oneReader(c *mon.Case, g cfg, i int) {
 	}
 	max := d.model.G.MaxRequest()
 	sizes := readSizes(max)
-	nreads := r.Range(6, 14)
-	for k := 0; k < nreads; k++ {
+	for k := 0; k < rp.nreads; k++ {
 		var n int
 		switch q := r.Intn(10); {
 		case q == 0:
